@@ -143,6 +143,9 @@ def build_variants(state, data):
     for r in ch.get(None, []):
         rec(r)
     out = {"post-order": t1, "reversed+update": t2, "from_dict": t3, "point-by-point": t4}
+    # a dictionary written before the prior was stored in it (older trace files): the restore falls back to the uniform grid prior
+    old = {k: v for k, v in t1.to_dict().items() if k != "log_prior"}
+    out["from_dict-of-an-older-trace"] = Tree.from_dict(old)
     # the original after a COPY of it was edited (Gibbs-move style) and the original recomputed: copies must not share buffers
     t5 = oracle.build(state, data)
     big = [b for b, _ in state[0] if len(b) > 1]
